@@ -386,76 +386,81 @@ func c16Receiver(c *core.Ctx, rrc *ssa.Function) {
 }
 
 func c16CancelOwnership(c *core.Ctx) {
-	rr := unifyFunc(c, "runRead")
 	rwc := unifyFunc(c, "runReadWithCancel")
-	rbr := unifyFunc(c, "runReadBlobReader")
-	if rr == nil || rwc == nil || rbr == nil {
-		c.Fail("C16.R4", "anchor/runRead", 0, "runRead / runReadWithCancel / runReadBlobReader not found")
+	if rwc == nil {
+		c.Fail("C16.R4", "anchor/runReadWithCancel", 0, "runReadWithCancel not found")
 		return
 	}
-	c.Analysed("ociunify.runRead")
-	c.Analysed("ociunify.runReadBlobReader")
-	cancelOf := func(fn *ssa.Function) ssa.Value {
+	// every function that obtains the winner's cancel function from
+	// runReadWithCancel owns it: on each of its returns the cancel has been
+	// called, or travels with the returned reader (its `cancel` field), or is
+	// itself returned to the caller (who then owns it and is checked the same way)
+	nOwners, nCarried := 0, 0
+	for _, fn := range c.P.ModuleFunctions("ociunify") {
+		if isInstance(fn) || fn == rwc {
+			continue
+		}
 		for _, ci := range facts.CallsIn(fn) {
 			sc := ci.Common().StaticCallee()
-			if sc == nil {
+			if sc == nil || !(sc == rwc || (sc.Origin() != nil && sc.Origin() == rwc)) || ci.Value() == nil {
 				continue
 			}
-			if o := sc.Origin(); (o != nil && o == rwc) || sc == rwc {
-				for _, ref := range *ci.Value().Referrers() {
-					if ex, ok := ref.(*ssa.Extract); ok && ex.Index == 1 {
-						return ex
+			var cv ssa.Value
+			for _, ref := range *ci.Value().Referrers() {
+				if ex, ok := ref.(*ssa.Extract); ok && ex.Index == 1 {
+					cv = ex
+				}
+			}
+			key := fnName(fn)
+			if fn.Parent() != nil {
+				key = fnName(outermost(fn)) + "$lit"
+			}
+			if cv == nil {
+				c.Fail("C16.R4", key+"/cancel", ci.Pos(), "the cancel function returned by runReadWithCancel is discarded: the chosen member's context leaks")
+				continue
+			}
+			nOwners++
+			c.Analysed(facts.FuncName(fn))
+			for _, r := range returnsOf(fn) {
+				if !facts.Dominates(ci, r) {
+					continue
+				}
+				called := false
+				for _, cj := range facts.CallsIn(fn) {
+					if facts.Resolve(cj.Common().Value) == cv && facts.Dominates(cj, r) {
+						called = true
 					}
 				}
-			}
-		}
-		return nil
-	}
-	cv := cancelOf(rr)
-	okRR := false
-	if cv != nil {
-		for _, ci := range facts.CallsIn(rr) {
-			if facts.Resolve(ci.Common().Value) == cv {
-				okRR = true
-				for _, r := range returnsOf(rr) {
-					if !facts.Dominates(ci, r) {
-						okRR = false
+				carried, forwarded := false, false
+				for i := range r.Results {
+					v := facts.RetVal(r, i)
+					if v == cv {
+						forwarded = true
+					}
+					if mi, isMI := v.(*ssa.MakeInterface); isMI {
+						v = mi.X
+					}
+					if u, isU := v.(*ssa.UnOp); isU {
+						v = u.X
+					}
+					if al, isAl := v.(*ssa.Alloc); isAl {
+						if cf, has := blobLiteralFieldOf(al, "cancel"); has && facts.Resolve(cf) == cv {
+							carried = true
+						}
 					}
 				}
+				if carried {
+					nCarried++
+					// only a success may hand the live context on
+					c.Check(facts.RetErrIsNil(r), "C16.R4", key+"/reader-owns-cancel", r.Pos(), "the returned reader carries the winner's cancel function", "a reader carrying the cancel function is returned together with an error")
+					continue
+				}
+				c.Check(called || forwarded, "C16.R4", key+"/cancels-before-return", r.Pos(), "the winner's context is cancelled (or its cancel function handed on) before returning", fnName(fn)+" returns without calling the cancel function it was given by runReadWithCancel (and without handing it on): the chosen member's context leaks")
 			}
 		}
 	}
-	c.Check(okRR, "C16.R4", "runRead/cancels-before-return", rr.Pos(), "the winner's context is cancelled before runRead returns", "runRead does not call the cancel function it was given before returning: the chosen member's context leaks")
-	cv = cancelOf(rbr)
-	if cv == nil {
-		c.Fail("C16.R4", "runReadBlobReader/cancel", rbr.Pos(), "runReadBlobReader does not obtain a cancel function")
-		return
-	}
-	for _, r := range returnsOf(rbr) {
-		if facts.RetErrIsNil(r) {
-			// success: the returned reader carries the cancel
-			ok := false
-			v := facts.RetVal(r, 0)
-			if mi, isMI := v.(*ssa.MakeInterface); isMI {
-				v = mi.X
-			}
-			if u, isU := v.(*ssa.UnOp); isU {
-				if al, isAl := u.X.(*ssa.Alloc); isAl {
-					if cf, has := blobLiteralFieldOf(al, "cancel"); has && facts.Resolve(cf) == cv {
-						ok = true
-					}
-				}
-			}
-			c.Check(ok, "C16.R4", "runReadBlobReader/reader-owns-cancel", r.Pos(), "the returned reader carries the winner's cancel function", "the reader returned on success does not carry the cancel function of the member that produced it")
-		} else {
-			ok := false
-			for _, ci := range facts.CallsIn(rbr) {
-				if facts.Resolve(ci.Common().Value) == cv && facts.Dominates(ci, r) {
-					ok = true
-				}
-			}
-			c.Check(ok, "C16.R4", "runReadBlobReader/cancel-on-error", r.Pos(), "cancel is called on the error path", "on the error path runReadBlobReader returns without calling cancel")
-		}
+	if nOwners < 2 || nCarried == 0 {
+		c.Fail("C16.R4", "cancel-owners/instance-floor", rwc.Pos(), sprintf("only %d callers of runReadWithCancel take its cancel function, %d of them hand it to a returned reader", nOwners, nCarried))
 	}
 	// blobReader.Close: closes the underlying reader and calls cancel
 	br := c.P.NamedType("ociunify", "blobReader")
